@@ -24,6 +24,7 @@ fn uri_alphabet() -> Vec<&'static str> {
         "http://zv.example/1st",
         "http://zv.example/xml",
         "http://zv.example/xmlstuff",
+        "http://zv.example/m\u{b2}",
         "http://zv.example/XMLSchema-instance-like",
         "http://zv.example/\u{fc}n\u{ef}",
         "http://zv.example/old/2006",
